@@ -38,8 +38,10 @@ CHECKS = {
  "C17": ("real proj_B_to_hull with a quadprog contract stub (result in hull, nearest by an explicit competitor instance, interior points fixed), alpha_for_B_with_P / B_with_P on symbolic "
          "facets (positive multiple on the boundary, all facet inequalities, nan only when no facet is hit), line_to_simplex, all-pairs slice on symbolic clouds (on the plane, on a "
          "segment of the cloud); hull-edge branch and exactness of the slice by z3 linear arithmetic on sampled concrete clouds in 2-5 dimensions with the real qhull", "4 C17"),
- "C12": ("PARTIAL: intensity (L1) scaling decided on fully symbolic systems (light-induced part multiplied by one positive factor amax/bmax, largest capture = smallest single-source "
-         "maximum, ratios unchanged, relative and absolute capture, caller array untouched); the chromatic (distance) scaling half is NOT decided (only its caller-array clause, in C14)", "4 C12"),
+ "C12": ("PARTIAL: intensity (L1) scaling decided on fully symbolic systems (one positive factor amax/bmax on the light-induced part, largest capture = smallest single-source maximum, "
+         "ratios unchanged, relative and absolute capture, caller array untouched); chromatic (distance) scaling decided for DICHROMATS (concrete system, symbolic targets, every path: "
+         "totals kept, one common contraction about the neutral point, all chromaticities inside the gamut, unchanged when already inside, zero rows stay zero); the tri-/tetrachromat "
+         "branch of the distance scaling is NOT decided (only its caller-array clause, in C14)", "4 C12"),
  "C13": ("real sample_in_hull (pseudo-random and QMC branches) and estimator.sample_in_hull with recording stubs for the generator, Dirichlet and QMC engines, on symbolic clouds: "
          "exactly n samples, each a convex combination of the vertices of its simplex (hence in the hull / reproducible in bounds), simplex probability = volume / total volume "
          "(compared with the harness's own determinant formula), Dirichlet(1..1) of d+1 components, all randomness from the one seeded generator, l1 total; uniformity is reduced "
